@@ -21,7 +21,10 @@ let spec_order (fs : (int option * dty) list) : int list =
 
 let check inp obs =
   match split_ws inp with
-  | ["enc"; ds; vs] ->
+  | "enc" :: ds :: vs :: dirt ->
+    (* dirt (optional third field): the value the Go destination held before the decode; the
+       result must not depend on it, so the model ignores it *)
+    let dirty = (dirt <> []) in
     let d = parse_dty ds in
     let t = wire_ty d in
     let v = parse_value d vs in
@@ -30,15 +33,15 @@ let check inp obs =
     let se = some_enum t v in
     let typed = has_type v t && wf_ty t in
     let enc = encode_go t v in
-    let model =
-      if mm then "nondet ~"
-      else hex_of_bytes enc ^ " " ^
-           (match decode_res current t enc with
-            | Ok (v', []) -> render_value d v'
-            | Ok (_, rest) -> "left:" ^ hex_of_n (n_of_int (List.length rest))
-            | Err _ -> "err"
-            | Panic -> "panic"
-            | OutOfFuel -> "hang") in
+    let rt_model = (match decode_res current t enc with
+        | Ok (v', []) -> render_value d v'
+        | Ok (_, rest) -> "left:" ^ hex_of_n (n_of_int (List.length rest))
+        | Err _ -> "err"
+        | Panic -> "panic"
+        | OutOfFuel -> "hang") in
+    (* a multi-entry map is emitted in map iteration order: the bytes are not a function of the
+       value (nondet), the decoded value is *)
+    let model = (if mm then "nondet" else hex_of_bytes enc) ^ " " ^ rt_model in
     let (ib, irt) = (match split_ws obs with
         | [b; r] ->
           ((if b = "err" || b = "nondet" || b = "panic" then None else Some (bytes_of_hex b)),
@@ -46,15 +49,22 @@ let check inp obs =
             else (try Some (parse_value d r) with Parse _ -> None)))
         | _ -> (None, None)) in
     let prop = c11_prop t v ib irt in
-    let finding = if prop then "-" else if mm then "map-order" else if se then "some-enum"
-      else if u57 then "uint-5to7" else "-" in
+    let rt_ok = (match irt with Some v' -> value_eqb v' v | None -> false) in
+    (* map-order excuses the bytes only: the round trip of a multi-entry map must still hold
+       (unless one of the other two findings applies to the value) *)
+    let finding = if prop then "-" else if se then "some-enum" else if u57 then "uint-5to7"
+      else if mm && rt_ok then "map-order" else "-" in
+    (* with several Marshal outputs the 200 calls may agree by chance: both answers are right *)
+    let model_eq = (model = obs) ||
+                   (mm && (match split_ws obs with [b; r] -> b <> "nondet" && b <> "err" && r = rt_model | _ -> false)) in
     let tags = String.concat "," (
         ["enc"; (if typed then "well-typed" else "ILL-TYPED")]
         @ ty_kinds d []
         @ (match d with DPrim (TUint | TBig) -> [compact_mode_tag v] | _ -> [])
+        @ (if dirty then ["dirty-dst"] else [])
         @ (if mm then ["multi-map"] else []) @ (if u57 then ["uint57"] else []) @ (if se then ["some-enum"] else [])) in
-    { prop_ok = prop; model_eq = (model = obs); nontrivial = (List.length enc >= 2); finding; tags;
-      detail = (if prop && model = obs then "" else
+    { prop_ok = prop; model_eq; nontrivial = (List.length enc >= 2); finding; tags;
+      detail = (if prop && model_eq then "" else
                   Printf.sprintf "model=%s spec=%s" (if String.length model > 300 then String.sub model 0 300 else model)
                     (let s = hex_of_bytes (spec_encode t v) in if String.length s > 200 then String.sub s 0 200 else s)) }
   | ["order"; ds] ->
@@ -69,4 +79,26 @@ let check inp obs =
      | _ -> fail "order: not a struct %s" ds)
   | _ -> fail "C11: bad input %s" inp
 
-let () = run_driver check
+(* vm_compute cross-check: Marshal's bytes and the round trip recomputed inside Coq (small values,
+   no multi-entry maps) *)
+let coq inp obs =
+  match split_ws inp with
+  | "enc" :: ds :: vs :: _ ->
+    let d = parse_dty ds in
+    let t = wire_ty d in
+    let v = parse_value d vs in
+    if multi_map v || String.length vs > 300 then None else
+    (match split_ws obs with
+     | [b; r] when b <> "err" && b <> "nondet" && b <> "panic" ->
+       let enc_ok = Printf.sprintf "bytes_eqb (encode_go %s %s) %s" (coq_ty t) (coq_value v) (coq_bytes (bytes_of_hex b)) in
+       let rt = (if r = "err" then Some "None"
+                 else if String.length r >= 5 && String.sub r 0 5 = "left:" then None
+                 else (try Some (Printf.sprintf "(Some (%s, 0%%nat))" (coq_value (parse_value d r))) with Parse _ -> None)) in
+       (match rt with
+        | Some w -> Some (Printf.sprintf "%s && dec_matches (decode_res current %s (encode_go %s %s)) %s"
+                            enc_ok (coq_ty t) (coq_ty t) (coq_value v) w)
+        | None -> Some enc_ok)
+     | _ -> None)
+  | _ -> None
+
+let () = run_driver ~coq check
